@@ -161,3 +161,20 @@ Definition diagnose (c : tcase) : Z :=
   | Ok _, OErr _ => 9
   | _, _ => 10
   end.
+
+(* ---- parse_fill_kw / parse_trcl_kw ------------------------------------------------------------ *)
+(* observed: KeyError, or the returned tuple as codes together with the harness's independent
+   numeric verdict on it (used only where the model says "normalised") *)
+Inductive kw_out := KErr (e : Z) | KOk (l : list Z) (numeric_ok : bool).
+
+Record kwcase := mkKw {
+  w_fill : bool; w_star : bool; w_trid : Z; w_params : list Z; w_table : list (Z * list Z); w_out : kw_out
+}.
+
+Definition check_kw (c : kwcase) : bool :=
+  match parse_tr_params (w_fill c) (w_star c) (w_trid c) (w_params c) (w_table c), w_out c with
+  | Err EKey, KErr 1 => true
+  | Ok (TSList l), KOk l' _ => list_eqb Z.eqb l l'
+  | Ok TSNorm, KOk l' ok => Nat.eqb (List.length l') 12 && ok
+  | _, _ => false
+  end.
